@@ -20,24 +20,45 @@ def main(c):
     times = [0, 1, 86399, 86400, 951782399, 951782400, 1582934400, 1709251199, 2147483647, 2147483648, 4102444800, 253402300799]
     rs = lambda alpha, n: "".join(rnd.choice(alpha) for _ in range(n))
     ln = lambda: rnd.choice([0, 1, 2, 3, 4, 9, 20, 40, 60, 61, 64, 124, 128, 200])
+    prev = None
     for _ in range(c.pick(500, 20000)):
-        var = rnd.choice(["s3h", "s3q", "svc", "ddb"])
-        t = rnd.choice(times + [rnd.randint(0, 4102444800)])
-        keyid, secret, region = rs(UNRES, ln()), rs(PRINT, ln()), rs(UNRES, rnd.choice([0, 1, 3, 4, 9, 14, 200]))
-        body = rnd.choice(["none", "none", "-", g.hx(g.rbytes(rnd, rnd.choice([1, 55, 64, 1000, 4000])))])
-        if var in ("s3h", "s3q"):
-            a, b, cc = rnd.choice(["GET", "PUT", "HEAD", "DELETE", rs(UNRES, 3)]), rs(UNRES, ln()), "/" + rs(UNRES + "/", ln())
-        elif var == "svc":
-            a, b, cc = rnd.choice(["ec2", "sns", "email", rs(UNRES, rnd.choice([1, 2, 3, 10]))]), "", ""
+        if prev is not None and rnd.random() < 0.35:
+            # a signature is a function of its own arguments only: the same request again with exactly one argument changed
+            # (another secret in the same scope, the next day, another region, ...), straight after the previous one
+            var, t, keyid, secret, region, a, b, cc, body, exp = prev
+            k = rnd.choice(["secret", "secret", "keyid", "region", "t", "t1", "body", "same"])
+            if k == "secret":
+                secret = rs(PRINT, rnd.choice([len(secret), len(secret), ln()]))
+            elif k == "keyid":
+                keyid = rs(UNRES, ln())
+            elif k == "region":
+                region = rs(UNRES, rnd.choice([1, 3, 9]))
+            elif k == "t":
+                t = t + rnd.choice([1, 60, 86400, -86400]) if t > 86400 else t + 1
+                t = min(t, 253402300799)                                    # (years have four digits)
+            elif k == "t1":
+                t = (t // 86400) * 86400 + rnd.randrange(86400)          # another instant of the same day
+            elif k == "body":
+                body = rnd.choice(["none", "-", g.hx(g.rbytes(rnd, rnd.choice([1, 64])))])
         else:
-            a, b, cc = rs(UNRES, ln()), "", ""
-        exp = rnd.choice([0, 1, 60, 604800, 2147483647, -1, -2147483647])
+            var = rnd.choice(["s3h", "s3q", "svc", "ddb"])
+            t = rnd.choice(times + [rnd.randint(0, 4102444800)])
+            keyid, secret, region = rs(UNRES, ln()), rs(PRINT, ln()), rs(UNRES, rnd.choice([0, 1, 3, 4, 9, 14, 200]))
+            body = rnd.choice(["none", "none", "-", g.hx(g.rbytes(rnd, rnd.choice([1, 55, 64, 1000, 4000])))])
+            if var in ("s3h", "s3q"):
+                a, b, cc = rnd.choice(["GET", "PUT", "HEAD", "DELETE", rs(UNRES, 3)]), rs(UNRES, ln()), "/" + rs(UNRES + "/", ln())
+            elif var == "svc":
+                a, b, cc = rnd.choice(["ec2", "sns", "email", rs(UNRES, rnd.choice([1, 2, 3, 10]))]), "", ""
+            else:
+                a, b, cc = rs(UNRES, ln()), "", ""
+            exp = rnd.choice([0, 1, 60, 604800, 2147483647, -1, -2147483647])
+        prev = (var, t, keyid, secret, region, a, b, cc, body, exp)
         lines.append("sig %s %d %s %s %s %s %s %s %s %d" % (var, t, hs(keyid), hs(secret), hs(region), hs(a), hs(b), hs(cc), body if var != "s3q" else "none", exp))
     c.cov["calls"] = len(lines)
-    g.run(c, exe, lines, "sig", per=60)
+    g.run(c, exe, lines, "sig", per=60, shuffle=False)      # (the order matters: consecutive requests share all but one argument)
     c.cov["rule"] = ("requests for the four variants (S3 headers, S3 query string, generic service, DynamoDB) with key ids / regions / buckets / services / paths / operation names "
                      "over the URI-unreserved alphabet of length 0..200, secrets over printable ASCII (incl. lengths 60/61/124 around the HMAC block), bodies absent / empty / "
-                     "1..4000 bytes, expiry values incl. INT_MAX and negative, wrapped time() at epoch, day and leap-day boundaries, 2038 and beyond; each result validated by "
+                     "1..4000 bytes, a third of the requests repeating the previous one with exactly one argument changed (statelessness across calls), expiry values incl. INT_MAX and negative, wrapped time() at epoch, day and leap-day boundaries, 2038 and beyond; each result validated by "
                      "TLC against SigV4.tla (canonical request, string to sign, key derivation; content hash = SHA-256(body); scope date = date part of the timestamp); "
                      "an execution = 60 requests")
     c.cov["trusted_base"] = ["TLC", "JDK SHA-256 primitive", "civil-date arithmetic in SigV4.tla"]
